@@ -717,6 +717,9 @@ func (c *fctx) isThreaded(f *types.Func) bool {
 	if f == nil || f.Pkg() == nil || !c.isAbstract(f) || c.spec == nil {
 		return false
 	}
+	if c.spec.world {
+		return true
+	}
 	k := f.Pkg().Name() + "." + f.Name()
 	return len(c.spec.threaded[k]) > 0 || len(c.spec.threadedFields[k]) > 0
 }
